@@ -731,7 +731,7 @@ func (ex *Exec) callSSA(caller *frame, fn *ssa.Function, args []Value, env []Val
 			ex.note("init: no body for %s, zero result", name)
 			return ex.zeroResult(fn)
 		}
-		panic(engineErr("no code for function %s", name))
+		panic(engineErr("no code for function %s [%s]", name, ex.stackString()))
 	}
 	if fn.TypeParams().Len() > 0 && len(fn.TypeArgs()) == 0 {
 		panic(engineErr("uninstantiated generic %s", name))
